@@ -53,6 +53,10 @@ def inners():
         ('ref-ignore', ('ref', 'R'), {'R': ('seq', [('str', 'a'), ('opt', ('str', 'b'))])}, [('ignore', ('str', ' '))]),
         ('template', ('call', 'W', [('str', 'a')]), {}, [('rule', 'W', ['p'], ('seq', [('ref', 'p'), ('opt', ('str', 'b'))]))]),
         ('class', ('ref', 'K'), {}, [('class', 'K', None, [('field', 'x', ('str', 'a')), ('field', 'y', ('opt', ('str', 'b')))])]),
+        # byte literals (bytes input), alone and followed by ignorable input
+        ('byte', ('seq', [('byte', 0x61), ('opt', ('byte', 0x62))]), {}, []),
+        ('byte-ignore', ('seq', [('byte', 0x61), ('opt', ('byte', 0x62))]), {}, [('ignore', ('byte', 0x20))]),
+        ('bytes-literal-ignore', ('seq', [('bstr', b'a'), ('opt', ('bre', 'b', False))]), {}, [('ignore', ('bre', ' +', False))]),
         # a let *inside* the nest whose body is directly the use of the name (count / inline Python)
         ('let-count', ('let', 'n', ('apply', ('re', '[ab]', False), ('py', "lambda c: {'a': 1, 'b': 2}[c]")),
                        ('rep', ('str', 'b'), ('name', 'n'), ('name', 'n'))), {}, []),
@@ -192,6 +196,9 @@ def nesting_case(rec, iname, e0, rules, stmts, wkind, depth, named, bound, where
     if has_ignore:
         base += ['a ', ' a', 'a b', ' a b ']
     inputs = [('x' + t) for t in base] + ['a'] if bound else base
+    bytes_mode = any(x[0] in ('byte', 'bstr', 'bistr', 'bre') for x in gast.walk(e0))
+    if bytes_mode:
+        inputs = [t.encode() for t in inputs]
     chain = refpeg.build_chain([G])
     for text in inputs:
         try:
@@ -208,7 +215,7 @@ def nesting_case(rec, iname, e0, rules, stmts, wkind, depth, named, bound, where
                           'reference model on the wrapped expression', dict(case, text_repr=repr(text), desc=d[:200]), exp, o.outcome)
             continue
         # direct relation to the unwrapped grammar (real vs real) on success without zz / opt effects
-        if g0 is not None and not text.startswith('zz') and not text.startswith('xzz'):
+        if g0 is not None and not text.startswith(b'zz' if bytes_mode else 'zz') and not text.startswith(b'xzz' if bytes_mode else 'xzz'):
             o0 = observe.observe(g0, text)
             rec.count('relation_pairs')
             if o0.outcome[0] == 'value' and o.outcome[0] == 'value':
